@@ -12,9 +12,9 @@ git diff > $out/patch.diff
 cp mutant_demo.py $out/demo.py
 PP="PYTHONPATH=$wt/src/main/python"
 env $PP /venv/bin/python mutant_demo.py > $out/demo_with_change.txt 2>&1; rc_with=$?
-git stash -q
+git diff > /dev/shm/seed_confirm.patch; git checkout -q -- .
 env $PP /venv/bin/python mutant_demo.py > $out/demo_without_change.txt 2>&1; rc_without=$?
-git stash pop -q
+git apply /dev/shm/seed_confirm.patch
 suite=$(env $PP /venv/bin/python -m pytest -q -p no:cacheprovider src/test/python 2>&1 | tail -1)
 # registered check against /repo with the patch applied
 cd /verif
